@@ -368,6 +368,11 @@ package decorator
 //@ loop 2 invariant visited_are_keys: forall p string :: $visited[p] ==> has(r.Alias, p)
 //@ loop 2 invariant restorer_alias_wins_so_far: forall p string :: {has(effectiveAlias, p)} ($visited[p] && (has(r.Alias, p) && r.Alias[p] != "" && !(r.Alias[p] == "_" && (has(packagesInUse, p) && packagesInUse[p]))) ==> has(effectiveAlias, p) && effectiveAlias[p] == r.Alias[p]) && (!($visited[p] && (has(r.Alias, p) && r.Alias[p] != "" && !(r.Alias[p] == "_" && (has(packagesInUse, p) && packagesInUse[p])))) ==> (has(effectiveAlias, p) == (has(importsFound, p) && importsFound[p] != "" && !(has(r.Alias, p) && r.Alias[p] == "") && !(importsFound[p] == "_" && (has(packagesInUse, p) && packagesInUse[p])))) && (has(effectiveAlias, p) ==> effectiveAlias[p] == importsFound[p]))
 //@ loop 3 invariant alias_precedence: forall p string :: {has(effectiveAlias, p)} ((has(r.Alias, p) && r.Alias[p] != "" && !(r.Alias[p] == "_" && (has(packagesInUse, p) && packagesInUse[p]))) ==> has(effectiveAlias, p) && effectiveAlias[p] == r.Alias[p]) && (!(has(r.Alias, p) && r.Alias[p] != "" && !(r.Alias[p] == "_" && (has(packagesInUse, p) && packagesInUse[p]))) && (has(importsFound, p) && importsFound[p] != "" && !(has(r.Alias, p) && r.Alias[p] == "") && !(importsFound[p] == "_" && (has(packagesInUse, p) && packagesInUse[p]))) ==> has(effectiveAlias, p) && effectiveAlias[p] == importsFound[p]) && (!(has(r.Alias, p) && r.Alias[p] != "" && !(r.Alias[p] == "_" && (has(packagesInUse, p) && packagesInUse[p]))) && !(has(importsFound, p) && importsFound[p] != "" && !(has(r.Alias, p) && r.Alias[p] == "") && !(importsFound[p] == "_" && (has(packagesInUse, p) && packagesInUse[p]))) ==> !has(effectiveAlias, p))
+// Names bound by ordinary imports are pairwise distinct: findAlias hands out a name only once conflict,
+// which compares it with every name chosen so far, says no. ("" stands for dot and blank imports.)
+//@ loop 6 invariant separate_tables: r.packageNames != nil && aliases != nil && r.packageNames != aliases
+//@ loop 6 invariant names_distinct: forall p string, q string :: {has(r.packageNames, p), has(r.packageNames, q)} has(r.packageNames, p) && has(r.packageNames, q) && p != q && r.packageNames[p] != "" && r.packageNames[q] != "" ==> r.packageNames[p] != r.packageNames[q]
+//@ loop 7 invariant names_distinct: forall p string, q string :: {has(r.packageNames, p), has(r.packageNames, q)} has(r.packageNames, p) && has(r.packageNames, q) && p != q && r.packageNames[p] != "" && r.packageNames[q] != "" ==> r.packageNames[p] != r.packageNames[q]
 
 //@ func (r *FileRestorer) Fprint
 //@ modifies allbut(heap(Package.Syntax); heap(Package.Decorator); heap(Package.Dir); heap(Decorator.Filenames); elems(*dst.File); map(*dst.File, string))
@@ -605,3 +610,8 @@ package decorator
 //@ loop 1 invariant result_is_new: cap(out) == 0 || (!wasAllocated(arr(out)) && arr(out) >= entry(allocCounter()) && allocated(arr(out)))
 //@ loop 1 invariant old_rows: rowsKeptSinceLoopEntry()
 
+
+// conflict (a closure of updateImports): false only if no name chosen so far equals the candidate.
+//@ func updateImports$3
+//@ attr inline
+//@ loop 1 invariant none_so_far: forall p string :: $visited[p] ==> has(r.packageNames, p) && r.packageNames[p] != name
